@@ -87,7 +87,7 @@ func resultsKey(meta *cmtapi.BlockResultsMeta) string {
 }
 
 const sessionRule = "case = ONE stateless.NewCore on a real light client (trusted store starts with the recorded light block H; the harness plays honest P2P peers that have H and H+1) used for a session of 3-9 calls: " +
-	"GetBlockResults(H), GetTransactionsWithResults(H), GetTransactions(H), GetBlock(H), StateRoot(H) - the untrusted provider answers each call with the recorded data or an alteration of it (a result code / data / gas, " +
+	"GetBlockResults(H), GetTransactionsWithResults(H), GetTransactions(H), GetBlock(H), StateRoot(H), StateRoot(H-1) - the untrusted provider answers each call with the recorded data or an alteration of it (a result code / data / gas, " +
 	"a dropped result, a transaction byte, the block's state root or hash) - and, at a generated point, the light client verifies H+1 (the trusted head moves past H). oracle = whatever the core remembers between calls, " +
 	"data handed out is bound to a verified header AT THAT MOMENT: transactions, block and state root always equal the recorded ones when a call succeeds; block results equal the recorded ones whenever H is below the " +
 	"trusted head (at the head they are unverifiable by design and only the height is checked); honest answers are never rejected once verifiable. non-trivial = an altered answer was given at the head and the same " +
@@ -155,7 +155,7 @@ func TestC19CoreSession(t *testing.T) {
 			if err != nil {
 				ev.Infra(t, "head: %v", err)
 			}
-			kind := rapid.SampledFrom([]string{"results", "results", "txresults", "txs", "block", "stateroot", "latest-txresults"}).Draw(t, "kind")
+			kind := rapid.SampledFrom([]string{"results", "results", "txresults", "txs", "block", "stateroot", "stateroot-prev", "latest-txresults"}).Draw(t, "kind")
 			alter := rapid.SampledFrom([]string{"none", "none", "a", "b", "c", "d", "e"}).Draw(t, "alter")
 			fp = append(fp, kind, alter, head-H)
 			// provider answers for this call
@@ -343,6 +343,18 @@ func TestC19CoreSession(t *testing.T) {
 					}
 				} else if altered == "" {
 					fail("honest-block-rejected", "honest block rejected: %v", gerr)
+				}
+			case "stateroot-prev":
+				// the state after block H-1 is what the trusted header H commits to; whatever the core remembers from
+				// resolving it (header H also commits to the RESULTS of H-1) must not be taken for something about H
+				root, gerr := c.StateRoot(ctx, H-1)
+				rec.Label(fmt.Sprintf("stateroot-prev:returned=%v", gerr == nil))
+				if gerr == nil {
+					if root.Version != uint64(H-1) || !bytes.Equal(root.Hash[:], fx.lb.AppHash) {
+						fail("unbound-stateroot", "state root %s (version %d) for H-1 differs from the app hash %x of the recorded header H", root.Hash, root.Version, fx.lb.AppHash)
+					}
+				} else {
+					fail("honest-stateroot-rejected", "state root of H-1, committed to by the trusted header H, not served: %v", gerr)
 				}
 			default:
 				root, gerr := c.StateRoot(ctx, H)
